@@ -88,7 +88,8 @@ CLAIMED = {
   technique="Lean 4 proof (codec round trips against strict spec decoders) + byte-level model/implementation correspondence + independent decoders on the real output",
   ref="DESIGN.md §5 C01"),
  "C04": dict(
-  text="Closure theorems on the container models, for EVERY byte string with no well-formedness hypothesis (Props/C04_<Part>.lean; DESIGN.md 9.13): load / save / delete of the "
+  text="File-type level (Props/C04_FileTypes.lean): <type>_file_load_clean for 23 format classes and file_detect_then_load_clean for mutagen.File - the composed load of every class ends in ok or MutagenError on "
+       "every byte string; flac_load_clean for the whole of FLAC.load. Closure theorems on the container models, for EVERY byte string with no well-formedness hypothesis (Props/C04_<Part>.lean; DESIGN.md 9.13): load / save / delete of the "
        "model end in ok or MutagenError, never another class and never out of fuel - id3_header_clean, id3_save_clean, id3_delete_clean; ape_locate_clean, "
        "ape_save_clean, ape_delete_clean; iff_load_clean, iff_walk_finishes, iff_save_clean, iff_delete_clean; dsf_load_clean, dsf_save_clean, dsf_delete_clean; "
        "asf_load_clean, asf_load_never_diverges, asf_delete_clean, asf_resave_clean, asf_save_classes; ogg_load_clean, ogg_load_opus_clean, ogg_save_classes, "
